@@ -146,6 +146,13 @@ func (verify *VerifyServerController) handlePairVerifyFinish(in util.Container) 
 	verify.step = VerifyStepFinishResponse
 
 	data := in.GetBytes(TagEncryptedData)
+	if len(data) < 16 { // shorter than an auth tag
+		out := util.NewTLV8Container()
+		out.SetByte(TagSequence, verify.step.Byte())
+		out.SetByte(TagErrCode, ErrCodeAuthenticationFailed.Byte()) // return error 2
+		verify.reset()
+		return out, nil
+	}
 	message := data[:(len(data) - 16)]
 	var mac [16]byte
 	copy(mac[:], data[len(message):]) // 16 byte (MAC)
